@@ -560,7 +560,11 @@ func (c *compiler) compile(tok *token) []instruction {
 			t := c.toType(arg.Tokens[0])
 			types = append(types, t)
 		}
-		for _, arg := range tok.Tokens[funcArguments].Tokens {
+		for i, arg := range tok.Tokens[funcArguments].Tokens {
+			if arg.Text == "_" { // every blank parameter still occupies its own slot
+				c.Locals.Index(fmt.Sprintf("_#%d", i))
+				continue
+			}
 			c.Locals.Index(arg.Text)
 		}
 		if arguments > 0 && tok.Tokens[funcArguments].Tokens[arguments-1].Tokens[0].Text == "..." {
